@@ -29,7 +29,7 @@ def main():
         fired = set()
         lines = []
         for prop in (a.props.split(",") if a.props != "all" else ["all"]):
-            r = subprocess.run([os.path.join(HERE, "bin", "escalint"), "check", "-prop", prop, "-repo", dst, "-verif", HERE, "-n"], capture_output=True, text=True, errors="replace", env=env)
+            r = subprocess.run([os.environ.get("ESCALINT_BIN") or os.path.join(HERE, "bin", "escalint"), "check", "-prop", prop, "-repo", dst, "-verif", HERE, "-n"], capture_output=True, text=True, errors="replace", env=env)
             for l in r.stdout.splitlines():
                 if l.startswith("VIOLATION"):
                     fired.add(l.split("property=")[1].split()[0])
